@@ -6,6 +6,7 @@ import (
 	"path/filepath"
 	"sort"
 	"strings"
+	"sync"
 	"time"
 
 	"github.com/gopacket/gopacket"
@@ -22,7 +23,10 @@ import (
 
 type (
 	Builder struct {
-		snapshots        []*snapshot
+		snapshots []*snapshot
+		// statsLock guards knownPcaps and packetCount, FromPcap updates them
+		// on the import goroutine while the manager reads them.
+		statsLock        sync.Mutex
 		knownPcaps       []*pcapmetadata.PcapInfo
 		packetCount      uint
 		indexDir         string
@@ -552,10 +556,12 @@ outer:
 		b.snapshotFilename = filepath.Base(newSnapshotFilename)
 	}
 
+	b.statsLock.Lock()
 	b.knownPcaps = append(b.knownPcaps, newPcapInfos...)
 	for _, pi := range newPcapInfos {
 		b.packetCount += pi.PacketCount
 	}
+	b.statsLock.Unlock()
 	b.snapshots = newSnapshots
 
 	outputFiles := []string{}
@@ -567,9 +573,13 @@ outer:
 }
 
 func (b *Builder) PacketCount() uint {
+	b.statsLock.Lock()
+	defer b.statsLock.Unlock()
 	return b.packetCount
 }
 
 func (b *Builder) KnownPcaps() []*pcapmetadata.PcapInfo {
+	b.statsLock.Lock()
+	defer b.statsLock.Unlock()
 	return b.knownPcaps
 }
